@@ -1,5 +1,6 @@
 use std::collections::HashMap;
 use std::path::PathBuf;
+use std::sync::atomic::{AtomicBool, Ordering};
 use std::sync::Arc;
 
 use rip_kernel::{Event, Runtime};
@@ -23,9 +24,16 @@ pub struct SessionHandle {
     pub session_id: String,
     sender: broadcast::Sender<Event>,
     events: Arc<Mutex<Vec<Event>>>,
+    run_claimed: Arc<AtomicBool>,
 }
 
 impl SessionHandle {
+    /// A session stream is numbered from 0 by the one run that owns it: the first caller wins,
+    /// every later one gets `false`.
+    fn claim_run(&self) -> bool {
+        !self.run_claimed.swap(true, Ordering::SeqCst)
+    }
+
     pub fn subscribe(&self) -> broadcast::Receiver<Event> {
         self.sender.subscribe()
     }
@@ -118,16 +126,22 @@ impl SessionEngine {
             session_id,
             sender,
             events: Arc::new(Mutex::new(Vec::new())),
+            run_claimed: Arc::new(AtomicBool::new(false)),
         }
     }
 
+    /// Starts the run of a session. Returns `false` (and starts nothing) when the session already
+    /// had its run: a second run would number the same stream from 0 again.
     pub fn spawn_session(
         &self,
         handle: SessionHandle,
         input: String,
         continuity: Option<ContinuityRunLink>,
         openresponses_override: Option<OpenResponsesConfig>,
-    ) {
+    ) -> bool {
+        if !handle.claim_run() {
+            return false;
+        }
         let openresponses = openresponses_override.or_else(|| self.openresponses.clone());
         tokio::spawn(run_session(SessionContext {
             runtime: self.runtime.clone(),
@@ -144,6 +158,7 @@ impl SessionEngine {
             server_session_id: handle.session_id.clone(),
             input,
         }));
+        true
     }
 
     pub fn cancel_session(sessions: &mut HashMap<String, SessionHandle>, session_id: &str) -> bool {
